@@ -15,6 +15,12 @@ import Scalibr.Proofs.Semantic.MavenCanon
 import Scalibr.Proofs.Semantic.SemverSpec
 import Scalibr.Proofs.Semantic.SpecParse
 import Scalibr.Proofs.Semantic.Fuel
+import Scalibr.Proofs.Semantic.SpecDebian
+import Scalibr.Proofs.Semantic.SpecCran
+import Scalibr.Proofs.Semantic.SpecNuGet
+import Scalibr.Proofs.Semantic.SpecRubyGems
+import Scalibr.Proofs.Semantic.SpecPyPI
+import Scalibr.Proofs.Semantic.SpecReaders
 namespace Scalibr.Semantic
 
 /-! ## generic wrappers -/
@@ -269,5 +275,93 @@ theorem C07_fuel_adequate :
 def exRc : SemVer := ⟨1, 2, 3, [.alnum ['r', 'c'], .num 1, .alnum ['-', '5']], ['b', '7']⟩
 example : exRc.wf = true ∧ exRc.buildWf = true ∧ exRc.render = ['1', '.', '2', '.', '3', '-', 'r', 'c', '.', '1', '.', '-', '5', '+', 'b', '7'] := by decide
 example : specParse exRc.render = some exRc := by decide
+
+/-! ## agreement with the published rules of the other ecosystems
+
+Each specification is written from the ecosystem's documentation in `Spec/Semantic/<Eco>.lean`
+(structured version `V`, canonical text `render`, ordering `specCmp`) and imports none of the
+models; the theorems say that the model of the Go code, run on the canonical texts, answers what
+the documentation says — for every well-formed `V`, by induction over the segment lists. -/
+
+/-- Debian / Ubuntu: deb-version(7) — epoch, upstream_version, debian_revision; alternating non-digit
+(letters before non-letters, `~` before everything, even the end) and digit runs -/
+theorem C07_debian_spec (a b : DebSpec.V) (ha : a.wf = true) (hb : b.wf = true) :
+    compareStr .debian (DebSpec.render a) (DebSpec.render b) = .ofOrd (DebSpec.specCmp a b) :=
+  debian_spec a b ha hb
+
+def exDeb : DebSpec.V :=
+  ⟨1, [⟨[], some 2⟩, ⟨['.'], some 10⟩, ⟨['~', 'r', 'c'], some 1⟩, ⟨['+', 'd', 'f', 's', 'g'], none⟩],
+   some [⟨[], some 1⟩, ⟨['u', 'b', 'u', 'n', 't', 'u'], some 2⟩]⟩
+example : exDeb.wf = true ∧ DebSpec.render exDeb =
+    ['1', ':', '2', '.', '1', '0', '~', 'r', 'c', '1', '+', 'd', 'f', 's', 'g', '-', '1', 'u', 'b', 'u', 'n', 't', 'u', '2'] := by decide
+example : DebSpec.specParse (DebSpec.render exDeb) = some exDeb := by decide
+/-- `1.0~rc1 < 1.0 < 1.0+b1` and `1.0 = 1.0-0` by the manual page's rule -/
+example : DebSpec.specCmp ⟨0, [⟨[], some 1⟩, ⟨['.'], some 0⟩, ⟨['~', 'r', 'c'], some 1⟩], none⟩ ⟨0, [⟨[], some 1⟩, ⟨['.'], some 0⟩], none⟩ = .lt ∧
+    DebSpec.specCmp ⟨0, [⟨[], some 1⟩, ⟨['.'], some 0⟩], none⟩ ⟨0, [⟨[], some 1⟩, ⟨['.'], some 0⟩, ⟨['+', 'b'], some 1⟩], none⟩ = .lt ∧
+    DebSpec.specCmp ⟨0, [⟨[], some 1⟩, ⟨['.'], some 0⟩], none⟩ ⟨0, [⟨[], some 1⟩, ⟨['.'], some 0⟩], some [⟨[], some 0⟩]⟩ = .eq := by decide
+
+/-- PyPI: PEP 440 — epoch, zero-padded release, `.devN < aN < bN < rcN < (none) < .postN`, local labels -/
+theorem C07_pypi_spec (a b : PepSpec.V) (ha : a.wf = true) (hb : b.wf = true) :
+    compareStr .pypi (PepSpec.render a) (PepSpec.render b) = .ofOrd (PepSpec.specCmp a b) :=
+  pypi_spec a b ha hb
+
+def exPep : PepSpec.V := ⟨1, 2, [0, 3], some (.rc, 1), some 2, some 3, [.str ['u', 'b', 'u', 'n', 't', 'u'], .num 1]⟩
+example : exPep.wf = true ∧ PepSpec.render exPep =
+    ['1', '!', '2', '.', '0', '.', '3', 'r', 'c', '1', '.', 'p', 'o', 's', 't', '2', '.', 'd', 'e', 'v', '3', '+', 'u', 'b', 'u', 'n', 't', 'u', '.', '1'] := by decide
+example : PepSpec.specParse (PepSpec.render exPep) = some exPep := by decide
+/-- `1.0.dev1 < 1.0a1 < 1.0 < 1.0.post1.dev1 < 1.0.post1` and `1.0 < 1.0+x` by PEP 440 -/
+example : PepSpec.specCmp ⟨0, 1, [0], none, none, some 1, []⟩ ⟨0, 1, [0], some (.a, 1), none, none, []⟩ = .lt ∧
+    PepSpec.specCmp ⟨0, 1, [0], some (.a, 1), none, none, []⟩ ⟨0, 1, [0], none, none, none, []⟩ = .lt ∧
+    PepSpec.specCmp ⟨0, 1, [0], none, none, none, []⟩ ⟨0, 1, [0], none, some 1, some 1, []⟩ = .lt ∧
+    PepSpec.specCmp ⟨0, 1, [0], none, some 1, some 1, []⟩ ⟨0, 1, [0], none, some 1, none, []⟩ = .lt ∧
+    PepSpec.specCmp ⟨0, 1, [0], none, none, none, []⟩ ⟨0, 1, [0], none, none, none, [.str ['x']]⟩ = .lt := by decide
+
+/-- RubyGems: `Gem::Version#<=>` on canonical segments -/
+theorem C07_rubygems_spec (a b : RubySpec.V) (ha : a.wf = true) (hb : b.wf = true) :
+    compareStr .rubygems (RubySpec.render a) (RubySpec.render b) = .ofOrd (RubySpec.specCmp a b) :=
+  rubygems_spec a b ha hb
+
+def exRuby : RubySpec.V := ⟨[.num 1, .num 0, .str ['r', 'c'], .num 10]⟩
+example : exRuby.wf = true ∧ RubySpec.render exRuby = ['1', '.', '0', '.', 'r', 'c', '.', '1', '0'] := by decide
+example : RubySpec.specParse (RubySpec.render exRuby) = some exRuby := by decide
+/-- `1.0.a9 < 1.0.a10 < 1.0 = 1` as the documentation says -/
+example : RubySpec.specCmp ⟨[.num 1, .num 0, .str ['a'], .num 9]⟩ ⟨[.num 1, .num 0, .str ['a'], .num 10]⟩ = .lt ∧
+    RubySpec.specCmp ⟨[.num 1, .num 0, .str ['a'], .num 10]⟩ ⟨[.num 1, .num 0]⟩ = .lt ∧
+    RubySpec.specCmp ⟨[.num 1, .num 0]⟩ ⟨[.num 1]⟩ = .eq := by decide
+
+/-- NuGet: SemVer 2.0.0 with the legacy fourth part, case-insensitive pre-release labels -/
+theorem C07_nuget_spec (a b : NuGetSpec.V) (ha : a.wf = true) (hb : b.wf = true) :
+    compareStr .nuget (NuGetSpec.render a) (NuGetSpec.render b) = .ofOrd (NuGetSpec.specCmp a b) :=
+  nuget_spec a b ha hb
+
+def exNuGet : NuGetSpec.V := ⟨1, 2, 3, some 4, [.alnum ['R', 'C'], .num 1], ['b', '7']⟩
+example : exNuGet.wf = true ∧ NuGetSpec.render exNuGet = ['1', '.', '2', '.', '3', '.', '4', '-', 'R', 'C', '.', '1', '+', 'b', '7'] := by decide
+example : NuGetSpec.specParse (NuGetSpec.render exNuGet) = some exNuGet := by decide
+/-- `1.0.0-RC = 1.0.0-rc`, `1.0.0 = 1.0.0.0`, `1.0.0-rc < 1.0.0` -/
+example : NuGetSpec.specCmp ⟨1, 0, 0, none, [.alnum ['R', 'C']], []⟩ ⟨1, 0, 0, none, [.alnum ['r', 'c']], []⟩ = .eq ∧
+    NuGetSpec.specCmp ⟨1, 0, 0, none, [], []⟩ ⟨1, 0, 0, some 0, [], []⟩ = .eq ∧
+    NuGetSpec.specCmp ⟨1, 0, 0, none, [.alnum ['r', 'c']], []⟩ ⟨1, 0, 0, none, [], []⟩ = .lt := by decide
+
+/-- CRAN: R's `package_version` — integer sequences, a proper prefix is smaller (no hypothesis needed) -/
+theorem C07_cran_spec (a b : CranSpec.V) :
+    compareStr .cran (CranSpec.render a) (CranSpec.render b) = .ofOrd (CranSpec.specCmp a b) :=
+  cran_spec a b
+
+def exCran : CranSpec.V := ⟨1, [(false, 2), (true, 10)]⟩
+example : exCran.wf = true ∧ CranSpec.render exCran = ['1', '.', '2', '-', '1', '0'] := by decide
+example : CranSpec.specParse (CranSpec.render exCran) = some exCran := by decide
+/-- `1.2 < 1.2.0 < 1.2-1` -/
+example : CranSpec.specCmp ⟨1, [(false, 2)]⟩ ⟨1, [(false, 2), (false, 0)]⟩ = .lt ∧
+    CranSpec.specCmp ⟨1, [(false, 2), (false, 0)]⟩ ⟨1, [(false, 2), (true, 1)]⟩ = .lt := by decide
+
+/-- The readers the driver uses for the published-rule oracle invert `render` (Debian/Ubuntu,
+RubyGems, CRAN; semver: `C07_semver_specParse_render`): the `spec=` verdict printed for a canonical
+pair is `specCmp` of exactly the versions the agreement theorems speak about. (The NuGet and PyPI
+readers are checked on the examples above only.) -/
+theorem C07_spec_readers :
+    (∀ v : DebSpec.V, v.wf = true → DebSpec.specParse (DebSpec.render v) = some v) ∧
+    (∀ v : RubySpec.V, v.wf = true → RubySpec.specParse (RubySpec.render v) = some v) ∧
+    (∀ v : CranSpec.V, CranSpec.specParse (CranSpec.render v) = some v) :=
+  ⟨debian_specParse_render, rubygems_specParse_render, cran_specParse_render⟩
 
 end Scalibr.Semantic
